@@ -77,8 +77,9 @@ def fam_ws(rng, i):
     wnd = field << min(ws, 14)
     mss = rng.choice([536, 1460, 300])
     # a small SYN-ACK window: it is never scaled, whatever the option says
-    return mk(rng, 'ws%d-s%d-f%d' % (i, ws, field), max(3000, min(3 * wnd + 1000, 40000)), passive=(i % 4 == 3), mss=mss, ws=ws, wnd=wnd,
-              synwnd=rng.choice([600, 1000, 2000, 4000]), ts=rng.random() < 0.5, fixed_edge=rng.random() < 0.4, ack_every=rng.choice([1, 2]))
+    total = min(3 * wnd + 1000, 40000) if wnd >= 500 else max(60, 30 * wnd)      # a tiny window: a few dozen round trips, not thousands
+    return mk(rng, 'ws%d-s%d-f%d' % (i, ws, field), total, passive=(i % 4 == 3), mss=mss, ws=ws, wnd=wnd,
+              synwnd=rng.choice([600, 1000, 2000, 4000]), ts=rng.random() < 0.5, fixed_edge=rng.random() < 0.4, ack_every=rng.choice([1, 2]) if wnd >= 500 else 1)
 
 
 def fam_smallwnd(rng, i):
@@ -240,6 +241,8 @@ def fam_random(rng, i):
             delack_ms=rng.choice([20, 40]), quiet_ooo=rng.random() < 0.2, fixed_edge=rng.random() < 0.3, cc=rng.choice(['', '', 'reno', 'cubic']))
     e = eff_mss(sc)
     nseg = rng.choice([6, 15, 30, 45])
+    if sc['peer']['delay_ms'] >= 15:
+        nseg = min(nseg, 15)                        # one window per emulated round trip: keep the run short
     sc['a']['writes'] = tcplib.chunks(rng, max(10, min(nseg * e, 16000)), 16000)
     w = rng.choice([e, 2 * e + 1, 8 * e, 20 * e, 60000])
     if ws > 0:
@@ -254,6 +257,8 @@ def fam_random(rng, i):
         r = dict(on='data', n=at, do=kind)
         if kind == 'dupacks':
             r.update(count=rng.choice([1, 2, 3, 4, 6]), step=rng.choice([0, 0, 0, 50, -50]))
+            if w + r['step'] * r['count'] < e:
+                r['step'] = abs(r['step'])          # (never shrink the window to nothing: nobody would re-open it)
         elif kind == 'partial':
             r.update(bytes=rng.randrange(1, max(2, e)))
         elif kind == 'wnd':
